@@ -3,21 +3,48 @@ import HyperModel.Proofs.Builder
 # C02 Every block the builder produces verifies identically
 
 `build` (Model/Builder.lean) is `BuildBlock` with its builder-only paths; `verify` is
-`Processor.Execute` on the same parent (`execSeq` of C01 between `createBlockContext` and
-`writeBlockContext`). By C01 `execSeq` is also what every parallel run of the verifier returns.
+`Processor.Execute` on the same parent (replay protection, then `execSeq` of C01 between
+`createBlockContext` and `writeBlockContext`). By C01 `execSeq` is also what every parallel run of
+the verifier returns. A schedule lists, per batch, the closures in the order they took `blockLock`,
+each flagged "skipped by the executor"; closures that are not skipped run to the end even after
+`stop` (in-flight tasks).
 -/
 namespace HyperModel.Props.C02
 open HyperModel.BlockExec HyperModel.Builder HyperModel.BlockExecProofs HyperModel.BuilderProofs
 
+/-- **C02 (duplicates)** the built block never contains a tx id twice and never a tx that
+`IsRepeat` marked (one contained in an ancestor inside the validity window) — for every schedule
+that only runs closures it was handed and runs no tx id twice (`SchedOK`: executor C08, mempool
+C23). -/
+theorem built_block_no_duplicates (c : BCtx) (sched : List Tx → List (Tx × Bool))
+    (batches : List (List Tx)) (b : Built) (ok : SchedOK c sched batches)
+    (hb : build c sched batches = some b) :
+    (b.txs.map (·.id)).Nodup ∧ ∀ t, t ∈ b.txs → c.seen t.id = false := by
+  have h := block_no_duplicates c sched batches ok
+  unfold build at hb
+  split at hb
+  · cases hb
+  · simp only at hb
+    split at hb
+    · cases hb
+    · split at hb
+      · cases hb
+      · split at hb
+        · cases hb
+        · cases hb; exact h
+
 /-- **C02** For every parent (whose header agrees with its state: `ParentConsistent`), every
-mempool content (any batches, any duplicates, sizes, failing / underfunded / expired / oversized
-txs), all rules/limits and every executor schedule `sched`: if `BuildBlock` returns a block, then
-verification of that block on the same parent succeeds and yields the builder's post-state, results
-and units consumed (unit prices are the same `ComputeNext` value on both sides). -/
-theorem build_verifies (c : BCtx) (sched : List Tx → List Tx) (batches : List (List MTx)) (b : Built)
-    (pc : ParentConsistent c) (hb : build c sched batches = some b) :
+mempool content (any batches, any txs already in an ancestor, sizes, failing / underfunded /
+expired / oversized txs), all rules/limits and every schedule satisfying `SchedOK`: if `BuildBlock`
+returns a block, then verification of that block on the same parent — replay protection included —
+succeeds and yields the builder's post-state, results and units consumed (unit prices are the same
+`ComputeNext` value on both sides). -/
+theorem build_verifies (c : BCtx) (sched : List Tx → List (Tx × Bool)) (batches : List (List Tx))
+    (b : Built) (pc : ParentConsistent c) (ok : SchedOK c sched batches)
+    (hb : build c sched batches = some b) :
     ∃ v, verify c b = some v ∧ v.post = applyDiff c.parent b.diff ∧
       v.results = b.results ∧ v.consumed = b.consumed := by
+  have hnd := built_block_no_duplicates c sched batches b ok hb
   unfold build at hb
   split at hb
   · cases hb
@@ -35,35 +62,23 @@ theorem build_verifies (c : BCtx) (sched : List Tx → List Tx) (batches : List 
           have hinv := buildLoop_inv c sched batches _ (binv_init c)
           generalize buildLoop c sched (BState.init c) batches = s at *
           obtain ⟨dV, eV, hpost⟩ := metadata_same_post pc eB
+          have hrf : replayFree c s.block = true := replayFree_of c s.block hnd.1 hnd.2
           unfold verify
           simp only [pc.1, pc.2.1]
           have e1 : ¬ (c.parentHeight + 1 ≠ c.parentHeight + 1) := fun h => h rfl
-          rw [if_neg e1, if_neg hgap, if_neg hempty]
+          rw [if_neg e1]
+          simp only [hrf, Bool.not_true, Bool.false_eq_true, if_false]
+          rw [if_neg hgap, if_neg hempty]
           have : execSeq (c.exec s.block) = some (s.diff, s.results, s.consumed) := hinv
           rw [this]
           simp only
           rw [eV]
           exact ⟨_, rfl, hpost, rfl, rfl⟩
 
-/-- a builder task either appends its tx to the block or leaves diff/consumption/results alone -/
-theorem procTx_cases (c : BCtx) (s : BState) (t : Tx) :
-    ((procTx c s t).block = s.block ∧ (procTx c s t).diff = s.diff ∧
-      (procTx c s t).consumed = s.consumed ∧ (procTx c s t).results = s.results) ∨
-    (procTx c s t).block = s.block ++ [t] := by
-  unfold procTx
-  split
-  · exact Or.inl ⟨rfl, rfl, rfl, rfl⟩
-  · split
-    · exact Or.inl ⟨rfl, rfl, rfl, rfl⟩
-    · exact Or.inl ⟨rfl, rfl, rfl, rfl⟩
-    · split
-      · split <;> exact Or.inl ⟨rfl, rfl, rfl, rfl⟩
-      · exact Or.inr rfl
-
 /-- a transaction the builder does not include (PreExecute failure; unit-limit skip or stop;
 executor already stopped; Execute error) leaves diff, consumption, block and results
 untouched — only the restore list / flags change -/
-theorem skipped_tx_no_effect (c : BCtx) (s : BState) (t : Tx)
+theorem skipped_tx_no_effect (c : BCtx) (s : BState) (t : Tx × Bool)
     (h : (procTx c s t).block = s.block) :
     (procTx c s t).diff = s.diff ∧ (procTx c s t).consumed = s.consumed ∧
       (procTx c s t).results = s.results := by
@@ -74,7 +89,10 @@ theorem skipped_tx_no_effect (c : BCtx) (s : BState) (t : Tx)
     simp at this
 
 /-- the verifier consumes units *before* execution, tx by tx, and fails on the first excess; the
-builder consumed the same units after execution. If the total fits, every prefix fits. -/
+builder consumed the same units after execution. If the total fits, every prefix fits. (Not used by
+`build_verifies`, whose invariant `builder_state_verifies` already carries the consumption of every
+prefix; it is the reason C01's verifier main loop, which consumes for all txs up front, cannot
+fail on a block whose sequential consumption succeeds.) -/
 theorem consume_prefix_ok (c : Ctx) (n m : Nat) (u : Dims) (h : cons c m = some u) (hnm : n ≤ m) :
     ∃ u', cons c n = some u' := by
   cases hx : cons c n with
@@ -90,7 +108,7 @@ theorem metadata_same_diff (c : BCtx) (pc : ParentConsistent c) (d dB : Diff) (h
 
 /-- the invariant of the builder's loop: at every point, verifying the block built so far
 reproduces the builder's diff, results and consumption -/
-theorem builder_state_verifies (c : BCtx) (sched : List Tx → List Tx) (batches : List (List MTx)) :
+theorem builder_state_verifies (c : BCtx) (sched : List Tx → List (Tx × Bool)) (batches : List (List Tx)) :
     let s := buildLoop c sched (BState.init c) batches
     execSeq (c.exec s.block) = some (s.diff, s.results, s.consumed) :=
   buildLoop_inv c sched batches _ (binv_init c)
@@ -105,18 +123,34 @@ def exC : BCtx :=
       else if k = 22 then some 0 else none
     prices := [1], maxUnits := [5], targetUnits := [4], targetTxsSize := 35, minBlockGap := 1,
     minEmptyBlockGap := 10, parentHeight := 4, parentTs := 50, parentFee := 0, now := 60,
-    hk := 20, tk := 21, fk := 22, feeEnc := fun _ u t => u.foldl (· + ·) t }
+    hk := 20, tk := 21, fk := 22, feeEnc := fun _ u t => u.foldl (· + ·) t, seen := fun i => i == 1 }
+
+def runAll (l : List Tx) : List (Tx × Bool) := l.map (fun t => (t, false))
 
 example : ParentConsistent exC := ⟨rfl, rfl, rfl, by decide, by decide, by decide⟩
 
-/-- a mempool with an included tx, a duplicate, a tx over the unit limit (skipped and restored;
-stop is not reached) and two txs beyond the size cap (restored): a block of one tx is built,
-height 5 is written -/
-example : (build exC id [[⟨exTx 0 [(0, 7)] 2 [[.put 0 1]], false⟩, ⟨exTx 1 [] 2 [], true⟩,
-      ⟨exTx 2 [(0, 1)] 4 [[.get 0]], false⟩, ⟨{ exTx 3 [] 1 [] with preOk := false }, false⟩,
-      ⟨exTx 4 [(0, 1)] 3 [[.get 0]], false⟩]]).map
+def exPool : List (List Tx) :=
+  [[exTx 0 [(0, 7)] 2 [[.put 0 1]], exTx 1 [] 2 [], exTx 2 [(0, 1)] 4 [[.get 0]],
+    { exTx 3 [] 1 [] with preOk := false }, exTx 4 [(0, 1)] 3 [[.get 0]]]]
+
+/-- a mempool with an included tx, a tx already in an ancestor (id 1), a tx over the unit limit
+(skipped and restored; stop is not reached) and two txs beyond the size cap (restored): a block of
+one tx is built, height 5 is written -/
+example : (build exC runAll exPool).map
       (fun b => (b.txs.map (·.id), b.consumed, b.restorable.map (·.id), b.diff 20, b.diff 0)) =
     some ([0], [2], [3, 4, 2], some (some 5), some (some 1)) := by
   rfl
+
+example : SchedOK exC runAll exPool := ⟨fun l x hx => by
+  obtain ⟨t, ht, rfl⟩ := List.mem_map.mp hx; exact ht, by decide⟩
+
+/-- the replay check of the model's verifier has teeth: a block containing the ancestor's tx, or
+one tx twice, does not verify -/
+def exBuilt (txs : List Tx) : Built :=
+  { txs := txs, height := 5, ts := 60, diff := emptyDiff, results := [], consumed := [2], restorable := [] }
+
+example : verify exC (exBuilt [exTx 1 [] 2 []]) = none := by rfl
+example : verify exC (exBuilt [exTx 0 [] 2 [], exTx 0 [] 2 []]) = none := by rfl
+example : (verify exC (exBuilt [exTx 0 [] 2 []])).isSome = true := by rfl
 
 end HyperModel.Props.C02
